@@ -319,6 +319,8 @@ pub fn run(run: &mut Run) {
         chrono::DateTime::<chrono::Utc>::MAX_UTC.with_timezone(&chrono::FixedOffset::west_opt(23 * 3600 + 59 * 60).unwrap()),
         chrono::DateTime::<chrono::Utc>::MIN_UTC.with_timezone(&chrono::FixedOffset::east_opt(23 * 3600 + 59 * 60).unwrap()),
         chrono::DateTime::from_timestamp(0, 0).unwrap().fixed_offset(),
+        chrono::DateTime::<chrono::Utc>::MIN_UTC.with_timezone(&chrono::FixedOffset::west_opt(23 * 3600 + 59 * 60).unwrap()),
+        chrono::DateTime::<chrono::Utc>::MAX_UTC.with_timezone(&chrono::FixedOffset::east_opt(23 * 3600 + 59 * 60).unwrap()),
     ];
     let ext_d = [chrono::Duration::MAX, chrono::Duration::MIN, chrono::Duration::nanoseconds(i64::MAX), chrono::Duration::nanoseconds(1), chrono::Duration::nanoseconds(-1), chrono::Duration::days(1), chrono::Duration::days(-1)];
     let progs: Vec<(String, Program)> = ["t + d", "t - d", "d + t", "t - u", "t < u", "t == u", "string(t)", "t.getFullYear()", "t.getDayOfYear()", "t.getDayOfWeek()", "t.getMonth()", "t.getMilliseconds()"]
